@@ -190,6 +190,65 @@ def check_pins(prop):
     return True
 
 
+def coqchk_closure(prop, jobs=12, per_module_timeout=2400):
+    """Independent re-check (coqchk) of every project module whose .vo is present - in the thorough tier the clean rebuild leaves exactly
+    the dependency closure of the property's targets - each with `-norec` (the module is checked, its dependencies are loaded), in
+    parallel.  Together this is the recursive check of the closure (the installed standard library and add-on libraries are loaded, not
+    re-checked), at a fraction of the wall time.  Returns (summary text, list of (module, output) that coqchk REJECTED).  A module whose
+    check does not finish within the time limit is reported in the summary and is not a rejection."""
+    import concurrent.futures
+    # the dependency closure of props/<prop>.vo and Dispatch.vo, from the dependency file coq_makefile keeps (.Makefile.d);
+    # fallback: every .vo present
+    deps = {}
+    try:
+        for line in open(os.path.join(COQ, '.Makefile.d')):
+            if ':' not in line:
+                continue
+            lhs, rhs = line.split(':', 1)
+            tg = [x for x in lhs.split() if x.endswith('.vo')]
+            if tg:
+                deps.setdefault(tg[0], set()).update(x for x in rhs.split() if x.endswith('.vo'))
+    except OSError:
+        deps = {}
+    todo = ['theories/props/%s.vo' % prop, 'theories/Dispatch.vo']
+    clo = set()
+    while todo:
+        x = todo.pop()
+        if x in clo or not x.startswith('theories/'):
+            continue
+        clo.add(x)
+        todo.extend(deps.get(x, ()))
+    if len(clo) <= 2:
+        clo = set()
+        for d, _, fs in os.walk(os.path.join(COQ, 'theories')):
+            for f in fs:
+                if f.endswith('.vo'):
+                    clo.add(os.path.relpath(os.path.join(d, f), COQ))
+    mods = sorted('SE.' + x[len('theories/'):-3].replace('/', '.') for x in clo if os.path.exists(os.path.join(COQ, x)))
+    rejected, slow, axioms = [], [], set()
+    def one(m):
+        try:
+            p = subprocess.run(['coqchk', '-silent', '-o', '-norec', m, '-Q', 'theories', 'SE'], cwd=COQ, capture_output=True, text=True, timeout=per_module_timeout)
+            return m, p.returncode, p.stdout + p.stderr
+        except subprocess.TimeoutExpired:
+            return m, None, ''
+    with concurrent.futures.ThreadPoolExecutor(max_workers=jobs) as ex:
+        for m, rc, out in ex.map(one, mods):
+            if rc is not None and rc != 0 and not out.strip():
+                m, rc, out = one(m)       # killed without a verdict (memory pressure of the parallel run): once more, alone
+            if rc is None:
+                slow.append(m)
+            elif rc != 0:
+                rejected.append((m, out[-2000:]))
+            else:
+                blk = re.search(r'\* Axioms:(.*?)\n\s*\n\* ', out, re.S)
+                if blk:
+                    axioms.update(a.strip() for a in blk.group(1).split('\n') if a.strip() and a.strip() != '<none>')
+    summary = ('coqchk -norec on %d modules (closure of props/%s.vo and Dispatch.vo): %d accepted, %d rejected, %d not finished within %d s; '
+               'axioms in the loaded contexts: %s' % (len(mods), prop, len(mods) - len(rejected) - len(slow), len(rejected), len(slow), per_module_timeout, ', '.join(sorted(axioms)) or '<none>'))
+    return summary, rejected
+
+
 # ---------------------------------------------------------------- extraction / driver
 def build_driver():
     with Lock('ocaml'):
